@@ -24,7 +24,7 @@ def cases(tier, seed):
     out = []
     states = ["", "p", "pd", "prd", "ppp"]
     for st in states:
-        for direction in ("submit|shutdown", "shutdown|submit"):
+        for direction in ("submit|shutdown", "shutdown|submit", "shutdown|complete"):
             for resub in (False, True):
                 out.append({"name": "cos.race/%s/%s/resub=%s" % (direction, st or "-", int(resub)), "kind": "sweep",
                             "dir": direction, "earlier": st, "resub": resub,
@@ -93,6 +93,13 @@ class CosScenario(object):
     def intervene(self, ctx):
         if self.case["dir"].startswith("submit"):
             self.do_shutdown(ctx)
+        elif self.case["dir"].endswith("complete"):
+            # every outstanding future finishes by itself while shutdown() is under way
+            for i in ctx.me.pending():
+                try:
+                    ctx.me.fut(i).set_result(1)
+                except Exception:
+                    pass
         else:
             self.do_submit(ctx, "racer")
 
@@ -100,6 +107,12 @@ class CosScenario(object):
         pass
 
     def oracle(self, ctx, res, info):
+        for a in (info.get("victim"), info.get("iact")):
+            if a is not None and a.error is not None and not isinstance(a.error, instr.DeadlockBroken):
+                res.violation("shutdown-or-submit-raised/%s" % type(a.error).__name__, "%s: %s raised %r (placement %s)"
+                              % (self.case["name"], a.role, a.error, info.get("site")), tb=getattr(a, "tb", None))
+                if not hasattr(ctx, "snapshot"):
+                    ctx.snapshot = [(f, f.done()) for f in list(ctx.returned)]
         oracle(ctx, res, self.case["name"].split("/")[1] + "/" + self.case["earlier"], info)
 
 
